@@ -349,7 +349,12 @@ pub fn spaces(tier: Tier) -> Vec<Space<'static>> {
                 let exp = num_cmp(&a, b);
                 let other8 = enc(&RVal::Arr(vec![RVal::Num(*b), RVal::u(8)]));
                 let exp8 = if exp == Ordering::Equal { Ordering::Less } else { exp };
-                let r = guard(|| (jsonb::compare(&d3[i as usize], &d3[j]), jsonb::compare(&d3[i as usize], &other8)));
+                // the same as members of an object: {"a": n, "b": 7} against {"a": m, "b": 7} and {"a": m, "b": 8}
+                let oa = enc(&RVal::obj(vec![("a", RVal::Num(a)), ("b", RVal::u(7))]));
+                let ob7 = enc(&RVal::obj(vec![("a", RVal::Num(*b)), ("b", RVal::u(7))]));
+                let ob8 = enc(&RVal::obj(vec![("a", RVal::Num(*b)), ("b", RVal::u(8))]));
+                let r = guard(|| (jsonb::compare(&d3[i as usize], &d3[j]), jsonb::compare(&d3[i as usize], &other8), jsonb::compare(&oa, &ob7), jsonb::compare(&oa, &ob8)));
+                let r = r.map(|(x, y, z, w)| if matches!((&z, &w), (Ok(c), Ok(d)) if *c == exp && *d == exp8) { (x, y) } else { (z, w) });
                 match r {
                     Ok((Ok(x), Ok(y))) if x == exp && y == exp8 => {}
                     other => acc.vio("order:compare-on-number-documents-differs-from-exact-value:followed-by-an-element", || json!({"a": format!("{:?}", a), "b": format!("{:?}", b), "expected": format!("{:?}", (exp, exp8)), "observed": format!("{:?}", other.map_err(|p| panic_class(&p)))})),
